@@ -17,3 +17,8 @@ def run(tier):
         rp, "every program TLC enumerates in the lenses (exhaustive below the lens bound); "
             "distinct = distinct term ASTs, non-trivial = not a bare leaf")
     return out.finish()
+
+
+def replay_file(path):
+    from harness import replayfile
+    return replayfile.replay_term(path, "harness.modes:c01", "C01")
